@@ -782,7 +782,10 @@ func (w *WAL) truncateHeadLocked(newMin uint64) error {
 			toDelete[seg.ID] = seg.BaseIndex
 			toClose = append(toClose, seg.r)
 			newState.segments = newState.segments.Delete(seg.BaseIndex)
-			nTruncated += (maxIdx - seg.MinIndex + 1) // +1 because MaxIndex is inclusive
+			if maxIdx >= seg.MinIndex {
+				// An empty tail holds no entries (its maxIdx is below its MinIndex).
+				nTruncated += (maxIdx - seg.MinIndex + 1) // +1 because MaxIndex is inclusive
+			}
 		}
 
 		// There may not be any segments (left) but if there are, update the new
